@@ -132,18 +132,22 @@ Proof.
   unfold fread in H. rewrite C in H.
   destruct (s_t st =? n) eqn:Et.
   - injection H as <- <-. split; [repeat split; auto; lia|]. split; [discriminate|]. intros _. lia.
-  - set (target := match want with Some k => Z.min (s_t st + k) n | None => n end) in *.
-    set (t' := Z.max (s_t st) target) in *.
+  - replace (n <? s_t st) with false in H by lia.
+    set (target := match want with Some k => Z.min (s_t st + k) n | None => n end) in *.
+    set (base := Z.max (s_t st) (s_pre st)) in *.
     assert (Htg : target <= n) by (subst target; destruct want; lia).
+    assert (Hr : (if target <=? base then target else target) = target) by (destruct (target <=? base); reflexivity).
+    rewrite Hr in H.
+    set (t' := Z.max (s_t st) target) in *.
     assert (Ht' : s_t st <= t' <= n) by (subst t'; lia).
     replace (t' <? target) with false in H by (subst t'; lia).
-    assert (Inv : finv n (mkSst true n (s_pre st) [] false (Z.max (s_pos st) t') t' false None)).
-    { repeat split; cbn; lia. }
+    assert (Inv : finv n (mkSst true n (s_pre st) [] false (s_pos st + Z.max 0 (t' - base)) t' false None)).
+    { repeat split; cbn; subst base; lia. }
     destruct want as [k|].
     + destruct (target =? s_t st + k) eqn:Ek; injection H as <- <-.
       * split; [exact Inv|]. split; discriminate.
-      * split; [exact Inv|]. split; [discriminate|]. intros _. cbn. subst t' target. lia.
-    + injection H as <- <-. split; [exact Inv|]. split; [discriminate|]. intros _. cbn. subst t' target. lia.
+      * split; [exact Inv|]. split; [discriminate|]. intros _. cbn. subst t' target base. lia.
+    + injection H as <- <-. split; [exact Inv|]. split; [discriminate|]. intros _. cbn. subst t' target base. lia.
 Qed.
 
 (* ------------------------------------------------------------------------------------ *)
@@ -181,58 +185,82 @@ Proof.
     cbn. rewrite B, P. rewrite chunks_len_framed by assumption. reflexivity.
 Qed.
 
-Lemma run_reads_sinv r st :
-  r_lim r = None -> sinv r st -> sinv r (snd (run_reads r st)).
+(* a stream whose pooled object carried nothing *)
+Definition dinv (r : req) (d : dstream) : Prop := d_skip d = 0 /\ sinv r (d_st d).
+
+Lemma dread_clean lim zl tl cs alt d want :
+  d_skip d = 0 ->
+  dread lim zl tl cs alt d want = (fst (sread lim zl tl (d_st d) want), mkD 0 (snd (sread lim zl tl (d_st d) want))).
+Proof.
+  intros H. destruct d as [k st]. cbn in H. subst k. unfold dread. cbn [d_st d_skip].
+  assert (E : s_fixed st || s_eof st || match s_err st with Some _ => true | None => false end || (0 <=? 0) = true)
+    by (rewrite orb_true_r; reflexivity).
+  destruct want as [[|q|q]|]; [reflexivity| | |]; rewrite E;
+    match goal with |- context [sread ?a ?b ?c ?d ?e] => destruct (sread a b c d e) end; reflexivity.
+Qed.
+
+Lemma rread_dinv r d want x d' :
+  r_lim r = None -> dinv r d -> rread r d want = (x, d') ->
+  dinv r d' /\ (x = RcEof -> framed_len (r_fr r) = Some (s_pos (d_st d'))).
+Proof.
+  intros L (K & I) H. unfold rread in H. rewrite (dread_clean _ _ _ _ _ _ _ K) in H.
+  destruct (sread (r_lim r) (zl_of (r_fr r)) (tl_of (r_fr r)) (d_st d) want) as [x0 st'] eqn:Hs.
+  cbn [fst snd] in H. injection H as <- <-.
+  pose proof (sread_sinv _ _ _ _ _ L I Hs) as (I' & E). split; [split; [reflexivity|exact I']|exact E].
+Qed.
+
+Lemma run_reads_dinv r d :
+  r_lim r = None -> dinv r d -> dinv r (snd (run_reads r d)).
 Proof.
   intros L I. unfold run_reads in *. destruct (r_rd r) as [|k|].
   - exact I.
-  - destruct (sread _ _ _ st (Some k)) as [x st'] eqn:H. cbn [fst snd] in *.
-    exact (proj1 (sread_sinv _ _ _ _ _ L I H)).
-  - destruct (sread _ _ _ st None) as [x st'] eqn:H. cbn [fst snd] in *.
-    exact (proj1 (sread_sinv _ _ _ _ _ L I H)).
+  - destruct (rread r d (Some k)) as [x d'] eqn:H. cbn [fst snd] in *.
+    exact (proj1 (rread_dinv _ _ _ _ _ L I H)).
+  - destruct (rread r d None) as [x d'] eqn:H. cbn [fst snd] in *.
+    exact (proj1 (rread_dinv _ _ _ _ _ L I H)).
 Qed.
 
-Lemma drain_end c r st st' :
-  r_lim r = None -> sinv r st -> drain c r st = (false, st') -> framed_len (r_fr r) = Some (s_pos st').
+Lemma drain_end c r d d' :
+  r_lim r = None -> dinv r d -> drain c r d = (false, d') -> framed_len (r_fr r) = Some (s_pos (d_st d')).
 Proof.
   intros L I H. unfold drain in H.
-  destruct (sread _ _ _ st (Some (c_max c + 1))) as [x st2] eqn:Hs.
+  destruct (rread r d (Some (c_max c + 1))) as [x d2] eqn:Hs.
   destruct x; try discriminate. injection H as <-.
-  exact (proj2 (sread_sinv _ _ _ _ _ L I Hs) eq_refl).
+  exact (proj2 (rread_dinv _ _ _ _ _ L I Hs) eq_refl).
 Qed.
 
 (* whatever the handler does with the stream (reads, detaches it, times out, hijacks, asks for close):
    a kept-alive connection continues at the end of the framed body *)
-Lemma after_handler_stream c r pos st evs off :
-  r_lim r = None -> sinv r st ->
-  after_handler c r pos (Some st) = (evs, Some off) -> framed_len (r_fr r) = Some off.
+Lemma after_handler_stream c r pos d evs off dfin :
+  r_lim r = None -> dinv r d ->
+  after_handler c r pos (Some d) = (evs, Some off, dfin) -> framed_len (r_fr r) = Some off.
 Proof.
   intros L I H. unfold after_handler in H.
-  pose proof (run_reads_sinv _ _ L I) as I2.
-  destruct (run_reads r st) as [[n x] st2] eqn:Hr. cbn [snd] in I2.
+  pose proof (run_reads_dinv _ _ L I) as I2.
+  destruct (run_reads r d) as [[n x] d2] eqn:Hr. cbn [snd] in I2.
   destruct (r_fin r); cbn [andb negb orb] in H.
   - (* FinNone *)
-    destruct (drain c r st2) as [cl st3] eqn:Hd.
+    destruct (drain c r d2) as [cl d3] eqn:Hd.
     destruct ((c_nokeepalive c || r_close r || cl) || false) eqn:Hc; [discriminate|].
-    injection H as _ <-. destruct cl; [rewrite orb_true_r in Hc; discriminate|].
+    injection H as _ <- _. destruct cl; [rewrite orb_true_r in Hc; discriminate|].
     exact (drain_end _ _ _ _ L I2 Hd).
   - (* FinDetach *)
-    destruct (negb (drained st2)) eqn:Hu; cbn in H; [discriminate|].
+    destruct (negb (drained (d_st d2))) eqn:Hu; cbn in H; [discriminate|].
     destruct ((c_nokeepalive c || r_close r) || false); [discriminate|].
-    injection H as _ <-. apply drained_end; [assumption|]. destruct (drained st2); [reflexivity|discriminate].
+    injection H as _ <- _. apply drained_end; [exact (proj2 I2)|]. destruct (drained (d_st d2)); [reflexivity|discriminate].
   - (* FinTimeout *) discriminate.
   - (* FinHijack *)
     destruct ((c_nokeepalive c || r_close r) || false); discriminate.
   - (* FinConnClose *)
-    destruct (drain c r st2) as [cl st3] eqn:Hd. rewrite orb_true_r in H. discriminate.
+    destruct (drain c r d2) as [cl d3] eqn:Hd. rewrite orb_true_r in H. discriminate.
 Qed.
 
-Lemma after_handler_plain c r pos evs off :
-  after_handler c r pos None = (evs, Some off) -> off = pos.
+Lemma after_handler_plain c r pos evs off dfin :
+  after_handler c r pos None = (evs, Some off, dfin) -> off = pos.
 Proof.
   unfold after_handler. intros H.
   destruct (r_fin r); cbn in H;
-    destruct (c_nokeepalive c || r_close r); cbn in H; try discriminate; injection H as _ <-; reflexivity.
+    destruct (c_nokeepalive c || r_close r); cbn in H; try discriminate; injection H as _ <- _; reflexivity.
 Qed.
 
 (* ------------------------------------------------------------------------------------ *)
@@ -260,7 +288,7 @@ Definition wf_cfg (c : cfg) : Prop := 0 < c_max c.
 
 Definition ready_ok (r : req) (pos : Z) (st : option sst) : Prop :=
   match st with
-  | Some s => sinv r s
+  | Some s => sinv r s /\ s_t s = 0 /\ s_eof s = false /\ s_err s = None
   | None => framed_len (r_fr r) = Some pos
   end.
 
@@ -275,7 +303,7 @@ Proof.
     + destruct (if (0 <? n) && c_preparse c then r_mp r else None) as [ok|].
       * unfold readMultipart in H. destruct ok; [|discriminate]. injection H as <- <-. cbn. f_equal; try lia.
       * cbn in H. injection H as <- <-. unfold finv, prefetchLimit. cbn. repeat split; lia.
-    + injection H as <- <-. unfold cinv. cbn. split; [reflexivity|]. right. left.
+    + injection H as <- <-. unfold cinv. cbn. split; [|auto]. split; [reflexivity|]. right. left.
       rewrite rem_chs_closed. repeat split; lia.
   - unfold continueReadBody in H. rewrite L in H. unfold ready_ok.
     destruct (r_fr r) as [|n|cs zl tl].
@@ -304,17 +332,67 @@ Proof.
     injection H as _ <- <-. exact (read_body_ready _ _ _ _ _ Wc Wr L Hb).
 Qed.
 
-Theorem next_starts_at_body_end c r evs off :
-  wf_cfg c -> wf_req r -> r_lim r = None ->
-  serve_one c r = (evs, Some off) -> framed_len (r_fr r) = Some off.
+(* ---- the requestStream pool ---- *)
+
+(* what the C02 statements need from releaseRequestStream: whatever the stream's state, the object it
+   puts back is indistinguishable from a new one *)
+Definition rel_resets (rel : rsobj -> rsobj) : Prop := forall o, rel o = rs_new.
+
+Lemma releaseRequestStream_resets : rel_resets releaseRequestStream.
+Proof. intros o. reflexivity. Qed.
+
+Definition pool_ok (p : rspool) : Prop := Forall (fun o => o = rs_new) p.
+
+Lemma rs_acquire_ok p k o p' : pool_ok p -> rs_acquire p k = (o, p') -> o = rs_new /\ pool_ok p'.
 Proof.
-  intros Wc Wr L H. unfold serve_one in H.
+  intros Hp H. unfold rs_acquire in H. destruct (nth_error p k) as [x|] eqn:E.
+  - injection H as <- <-. unfold pool_ok in *. rewrite Forall_forall in Hp. split.
+    + apply Hp. exact (nth_error_In _ _ E).
+    + apply Forall_forall. intros y Hy. apply Hp. apply in_app_or in Hy as [Hy|Hy].
+      * revert Hy. clear. revert p. induction k; intros [|z p]; cbn; try tauto. intros [H|H]; auto.
+      * revert Hy. clear. revert p. induction k; intros [|z p]; cbn; try tauto; intros H; right; auto.
+  - injection H as <- <-. auto.
+Qed.
+
+Lemma stream_on_new st : s_t st = 0 -> s_eof st = false -> s_err st = None -> stream_on rs_new st = mkD 0 st.
+Proof.
+  intros T E R. destruct st as [f cl pre chs op pos t eof err]. cbn in *. subst. unfold stream_on. cbn.
+  destruct f; reflexivity.
+Qed.
+
+(* one iteration, any pool of released objects: a kept-alive connection continues at the end of the
+   framed body, and the pool stays clean *)
+Theorem next_starts_at_body_end rel c r p evs off p' :
+  rel_resets rel -> pool_ok p ->
+  wf_cfg c -> wf_req r -> r_lim r = None ->
+  serve_one rel c r p = (evs, Some off, p') -> framed_len (r_fr r) = Some off.
+Proof.
+  intros Hrel Hp Wc Wr L H. unfold serve_one in H.
   destruct (before_handler c r) as [e|e pos st] eqn:Hb; [discriminate|].
   pose proof (before_handler_ready _ _ _ _ _ Wc Wr L Hb) as R.
-  destruct (after_handler c r pos st) as [e2 nxt] eqn:Ha. injection H as _ ->.
   destruct st as [s|].
-  - exact (after_handler_stream _ _ _ _ _ _ L R Ha).
-  - apply after_handler_plain in Ha as ->. exact R.
+  - destruct (rs_acquire p (r_pick r)) as [o p1] eqn:Ea.
+    destruct (rs_acquire_ok _ _ _ _ Hp Ea) as [-> Hp1].
+    destruct R as (I & T & E & Er). rewrite (stream_on_new s T E Er) in H.
+    destruct (after_handler c r pos (Some (mkD 0 s))) as [[e2 nxt] dfin] eqn:Ha. injection H as _ -> _.
+    apply (after_handler_stream _ _ _ _ _ _ _ L) in Ha; [exact Ha|]. split; [reflexivity|exact I].
+  - destruct (after_handler c r pos None) as [[e2 nxt] dfin] eqn:Ha. injection H as _ -> _.
+    apply after_handler_plain in Ha as ->. exact R.
+Qed.
+
+Lemma serve_one_pool rel c r p : rel_resets rel -> pool_ok p -> pool_ok (snd (serve_one rel c r p)).
+Proof.
+  intros Hrel Hp. unfold serve_one.
+  destruct (before_handler c r) as [e|e pos st]; [exact Hp|].
+  destruct st as [s|].
+  - destruct (rs_acquire p (r_pick r)) as [o p1] eqn:Ea.
+    destruct (rs_acquire_ok _ _ _ _ Hp Ea) as [_ Hp1].
+    destruct (after_handler c r pos (Some (stream_on o s))) as [[e2 nxt] dfin]. cbn [snd].
+    destruct dfin as [df|]; [|exact Hp1].
+    destruct (r_fin r); try exact Hp1; constructor; auto.
+  - destruct (after_handler c r pos None) as [[e2 nxt] dfin]. cbn [snd].
+    destruct dfin as [df|]; [|exact Hp].
+    destruct (r_fin r); try exact Hp; constructor; auto.
 Qed.
 
 (* ------------------------------------------------------------------------------------ *)
@@ -334,9 +412,9 @@ Qed.
 Definition quiet (e : event) : Prop :=
   match e with EDispatch _ _ _ | E100 | EParse _ => False | _ => True end.
 
-Theorem rejected_expectation_closes c r :
+Theorem rejected_expectation_closes rel c r p :
   expectation_rejected c r = true ->
-  exists status, serve_one c r = ([EResp status true], None).
+  exists status, serve_one rel c r p = ([EResp status true], None, p).
 Proof.
   intros H. rewrite expect_verdict_spec in H. unfold serve_one, before_handler.
   destruct (c_getonly c && negb (r_getlike r)); [eexists; reflexivity|].
@@ -356,54 +434,6 @@ Proof.
   - injection H as <-; reflexivity.
   - destruct (forallb ch_ok cs) eqn:B; [|discriminate]. injection H as <-.
     rewrite chunks_len_framed by assumption. reflexivity.
-Qed.
-
-Theorem body_bytes_never_parsed c : wf_cfg c -> forall rs base,
-  Forall wf_req rs -> Forall (fun r => r_lim r = None) rs ->
-  forall e, In e (serve c rs base) ->
-    match e with
-    | EParse off => In off (boundaries base rs)
-    | EDesync _ _ _ => False
-    | _ => True
-    end.
-Proof.
-  intros Wc rs; induction rs as [|r rest IH]; intros base W L e He.
-  - cbn in He. destruct He as [<-|[]]. exact I.
-  - inversion W as [|? ? Wr Wrest]; inversion L as [|? ? Lr Lrest]; subst.
-    cbn [serve] in He. destruct He as [<-|He]; [cbn; auto|].
-    destruct (serve_one c r) as [evs nxt] eqn:H1. apply in_app_or in He as [He|He].
-    + (* events of the iteration itself *)
-      unfold serve_one in H1. destruct (before_handler c r) as [ev|ev pos st] eqn:Hb.
-      * injection H1 as <- <-. unfold before_handler in Hb. revert He.
-        repeat match type of Hb with
-        | (if ?b then _ else _) = _ => destruct b
-        | match ?x with _ => _ end = _ => destruct x
-        end; try discriminate; injection Hb as <-; cbn; intros He;
-        try (destruct (r_expect r); cbn in He);
-        repeat (destruct He as [<-|He]; [exact I|]); try contradiction.
-      * destruct (after_handler c r pos st) as [e2 n2] eqn:Ha. injection H1 as <- <-.
-        assert (Hpre : ev = [E100] \/ ev = []).
-        { unfold before_handler in Hb.
-          repeat match type of Hb with
-          | (if ?b then _ else _) = _ => destruct b
-          | match ?x with _ => _ end = _ => destruct x
-          end; try discriminate; injection Hb as <- _ _; try (destruct (r_expect r)); auto. }
-        apply in_app_or in He as [He|He].
-        -- destruct Hpre as [-> | ->]; cbn in He; [destruct He as [<-|[]]; exact I|contradiction].
-        -- unfold after_handler in Ha.
-           repeat match type of Ha with
-           | (let '(_, _) := ?x in _) = _ => destruct x
-           | (if ?b then _ else _) = _ => destruct b
-           end; injection Ha as <- _; cbn in He;
-           repeat (destruct He as [<-|He]; [exact I|]); try contradiction.
-    + destruct nxt as [off|].
-      * pose proof (next_starts_at_body_end _ _ _ _ Wc Wr Lr H1) as F.
-        rewrite Lr in He. cbn [at_end] in He. unfold truncated in He. rewrite Lr in He. cbn [negb andb] in He.
-        rewrite (framed_wire _ _ F), Z.eqb_refl in He.
-        specialize (IH _ Wrest Lrest _ He).
-        destruct e; auto. cbn [boundaries]. right.
-        unfold req_len. rewrite F. replace (base + (r_head r + off)) with (base + r_head r + off) by lia. exact IH.
-      * destruct He as [<-|[]]. exact I.
 Qed.
 
 (* ------------------------------------------------------------------------------------ *)
@@ -523,8 +553,8 @@ Inductive shape (c : cfg) (r : req) : list event -> option Z -> Prop :=
     shape c r (pre ++ [EDispatch (r_id r) n x; EResp s cl] ++ hj) nxt.
 
 Lemma after_handler_shape c r pos st :
-  exists n x s cl hj, fst (after_handler c r pos st) = [EDispatch (r_id r) n x; EResp s cl] ++ hj
-    /\ ((hj = [EHijack] /\ snd (after_handler c r pos st) = None) \/ hj = []).
+  exists n x s cl hj, fst (fst (after_handler c r pos st)) = [EDispatch (r_id r) n x; EResp s cl] ++ hj
+    /\ ((hj = [EHijack] /\ snd (fst (after_handler c r pos st)) = None) \/ hj = []).
 Proof.
   unfold after_handler.
   repeat match goal with
@@ -533,32 +563,101 @@ Proof.
   end; cbn; do 5 eexists; (split; [reflexivity|]); auto.
 Qed.
 
-Lemma serve_one_shape c r :
-  wf_cfg c -> wf_req r -> r_lim r = None -> shape c r (fst (serve_one c r)) (snd (serve_one c r)).
+Lemma serve_one_shape rel c r p :
+  wf_cfg c -> wf_req r -> r_lim r = None ->
+  shape c r (fst (fst (serve_one rel c r p))) (snd (fst (serve_one rel c r p))).
 Proof.
   intros Wc Wr L. unfold serve_one, before_handler.
   destruct (c_getonly c && negb (r_getlike r)) eqn:G.
   { cbn. apply ShRefuse. rewrite may_refuse_split, G. reflexivity. }
   pose proof (expect_verdict_spec c r) as EV.
+  assert (Run : forall pre0 pos st,
+            (pre0 = [] \/ (pre0 = [E100] /\ r_expect r = true)) -> expectation_rejected c r = false ->
+            let x := (let '(d, p1) := match st with
+                                      | Some s => let '(o, p1) := rs_acquire p (r_pick r) in (Some (stream_on o s), p1)
+                                      | None => (None, p) end in
+                      let '(evs2, nxt, dfin) := after_handler c r pos d in
+                      (pre0 ++ evs2, nxt,
+                       match dfin, r_fin r with
+                       | Some _, FinTimeout => p1
+                       | Some df, _ => rel (obj_of df) :: p1
+                       | None, _ => p1
+                       end)) in
+            shape c r (fst (fst x)) (snd (fst x))).
+  { intros pre0 pos st Hp Hr.
+    destruct (match st with
+              | Some s => let '(o, p1) := rs_acquire p (r_pick r) in (Some (stream_on o s), p1)
+              | None => (None, p) end) as [d p1].
+    destruct (after_handler_shape c r pos d) as (n & x & s & cl & hj & H1 & H2).
+    destruct (after_handler c r pos d) as [[e2 nxt] dfin]. cbn [fst snd] in *. subst e2.
+    apply ShRun; auto. }
   destruct (r_expect r) eqn:E.
   - destruct (expect_verdict c r) as [s|].
     { cbn. apply ShRefuse. rewrite may_refuse_split, EV, orb_true_r. reflexivity. }
     pose proof (read_body_fail c r true Wc Wr L) as RF.
-    destruct (read_body c r true) as [p st| |].
-    + destruct (after_handler_shape c r p st) as (n & x & s & cl & hj & H1 & H2).
-      destruct (after_handler c r p st) as [e2 nxt]. cbn [fst snd] in *. subst e2.
-      apply ShRun; auto.
+    destruct (read_body c r true) as [pos st| |].
+    + apply Run; auto.
     + cbn. apply Sh100; assumption.
     + cbn. apply Sh100Refuse; [assumption|]. rewrite may_refuse_split, RF. apply orb_true_r.
   - pose proof (read_body_fail c r false Wc Wr L) as RF.
-    destruct (read_body c r false) as [p st| |].
+    destruct (read_body c r false) as [pos st| |].
     + destruct (expect_verdict c r) as [s|].
       { cbn. apply ShRefuse. rewrite may_refuse_split, EV, orb_true_r. reflexivity. }
-      destruct (after_handler_shape c r p st) as (n & x & s & cl & hj & H1 & H2).
-      destruct (after_handler c r p st) as [e2 nxt]. cbn [fst snd] in *. subst e2.
-      apply (ShRun c r []); auto.
+      apply Run; auto.
     + cbn. apply ShSilent.
     + cbn. apply ShRefuse. rewrite may_refuse_split, RF. apply orb_true_r.
+Qed.
+
+(* the events of an iteration are only "100 Continue", the handler call, responses and the hijack *)
+Lemma shape_events c r evs nxt e : shape c r evs nxt -> In e evs ->
+  match e with EParse _ | EDesync _ _ _ | EClose => False | _ => True end.
+Proof.
+  intros Sh He. inversion Sh as [s M E1 E2 | E1 E2 | Ex E1 E2 | s Ex M E1 E2 | pre n x s cl hj nxt' Hp Hr Hh E1 E2]; subst; cbn in He.
+  - destruct He as [<-|[]]; exact I.
+  - contradiction.
+  - destruct He as [<-|[]]; exact I.
+  - destruct He as [<-|[<-|[]]]; exact I.
+  - apply in_app_or in He as [He|He].
+    + destruct Hp as [-> | [-> _]]; cbn in He; [contradiction|destruct He as [<-|[]]; exact I].
+    + cbn in He. destruct He as [<-|[<-|He]]; try exact I.
+      destruct Hh as [[-> _] | ->]; cbn in He; [destruct He as [<-|[]]; exact I|contradiction].
+Qed.
+
+(* Whole connections over any clean pool, any number of pipelined requests: every head parse starts at
+   a message boundary, the server never goes on at another offset, and the pool stays clean. *)
+Theorem body_bytes_never_parsed rel c : rel_resets rel -> wf_cfg c -> forall rs base p,
+  pool_ok p -> Forall wf_req rs -> Forall (fun r => r_lim r = None) rs ->
+  pool_ok (snd (serve_p rel c rs base p)) /\
+  forall e, In e (fst (serve_p rel c rs base p)) ->
+    match e with
+    | EParse off => In off (boundaries base rs)
+    | EDesync _ _ _ => False
+    | _ => True
+    end.
+Proof.
+  intros Hrel Wc rs; induction rs as [|r rest IH]; intros base p Hp W L.
+  - cbn. split; [exact Hp|]. intros e [<-|[]]. exact I.
+  - inversion W as [|? ? Wr Wrest]; inversion L as [|? ? Lr Lrest]; subst.
+    cbn [serve_p].
+    pose proof (serve_one_shape rel c r p Wc Wr Lr) as Sh.
+    pose proof (serve_one_pool rel c r p Hrel Hp) as Hp1.
+    pose proof (next_starts_at_body_end rel c r p) as T1.
+    destruct (serve_one rel c r p) as [[evs nxt] p1] eqn:H1. cbn [fst snd] in Sh, Hp1.
+    destruct nxt as [off|].
+    + specialize (T1 evs off p1 Hrel Hp Wc Wr Lr eq_refl).
+      rewrite Lr. cbn [at_end]. unfold truncated. rewrite Lr. cbn [negb andb].
+      rewrite (framed_wire _ _ T1), Z.eqb_refl.
+      specialize (IH (base + r_head r + off) p1 Hp1 Wrest Lrest).
+      destruct (serve_p rel c rest (base + r_head r + off) p1) as [tail p2]. cbn [fst snd] in *.
+      destruct IH as [IHp IHe]. split; [exact IHp|].
+      intros e [<-|He]; [cbn; auto|]. apply in_app_or in He as [He|He].
+      * pose proof (shape_events _ _ _ _ e Sh He). destruct e; auto; contradiction.
+      * specialize (IHe e He). destruct e; auto. cbn [boundaries]. right.
+        unfold req_len. rewrite T1. replace (base + (r_head r + off)) with (base + r_head r + off) by lia. exact IHe.
+    + cbn [fst snd]. split; [exact Hp1|].
+      intros e [<-|He]; [cbn; auto|]. apply in_app_or in He as [He|He].
+      * pose proof (shape_events _ _ _ _ e Sh He). destruct e; auto; contradiction.
+      * destruct He as [<-|[]]. exact I.
 Qed.
 
 Lemma judge_nil c rs : judge c rs [] = true.
@@ -578,44 +677,44 @@ Proof.
     try reflexivity; destruct t as [|[] t]; cbn in *; try reflexivity; contradiction.
 Qed.
 
-Definition all_visible (l : list event) : Prop := filter visible l = l.
-
-Theorem model_trace_judged c : wf_cfg c -> forall rs base,
-  Forall wf_req rs -> Forall (fun r => r_lim r = None) rs ->
-  judge c rs (filter visible (serve c rs base)) = true /\ nohj (filter visible (serve c rs base)).
+Theorem model_trace_judged rel c : rel_resets rel -> wf_cfg c -> forall rs base p,
+  pool_ok p -> Forall wf_req rs -> Forall (fun r => r_lim r = None) rs ->
+  judge c rs (filter visible (fst (serve_p rel c rs base p))) = true
+  /\ nohj (filter visible (fst (serve_p rel c rs base p))).
 Proof.
-  intros Wc rs; induction rs as [|r rest IH]; intros base W L.
+  intros Hrel Wc rs; induction rs as [|r rest IH]; intros base p Hp W L.
   - cbn. auto.
   - inversion W as [|? ? Wr Wrest]; inversion L as [|? ? Lr Lrest]; subst.
-    cbn [serve filter visible].
-    pose proof (serve_one_shape c r Wc Wr Lr) as Sh.
-    pose proof (next_starts_at_body_end c r) as T1.
-    destruct (serve_one c r) as [evs nxt] eqn:H1. cbn [fst snd] in Sh.
-    rewrite filter_app.
+    cbn [serve_p].
+    pose proof (serve_one_shape rel c r p Wc Wr Lr) as Sh.
+    pose proof (serve_one_pool rel c r p Hrel Hp) as Hp1.
+    pose proof (next_starts_at_body_end rel c r p) as T1.
+    destruct (serve_one rel c r p) as [[evs nxt] p1] eqn:H1. cbn [fst snd] in Sh, Hp1.
     (* the tail of the trace *)
-    set (tail := match nxt with
-                 | Some off => if at_end (r_lim r) off then [EClose]
-                               else if negb (truncated r) && (off =? wire_len (r_fr r))
-                                    then serve c rest (base + r_head r + off)
-                                    else [EDesync (r_id r) off (base + r_head r + off)]
-                 | None => [EClose] end).
-    assert (Htail : (nxt = None /\ filter visible tail = []) \/
+    set (tp := match nxt with
+               | Some off => if at_end (r_lim r) off then ([EClose], p1)
+                             else if negb (truncated r) && (off =? wire_len (r_fr r))
+                                  then serve_p rel c rest (base + r_head r + off) p1
+                                  else ([EDesync (r_id r) off (base + r_head r + off)], p1)
+               | None => ([EClose], p1) end).
+    assert (Htail : (nxt = None /\ filter visible (fst tp) = []) \/
                     (exists off, nxt = Some off /\ well_framed r = true
-                                 /\ judge c rest (filter visible tail) = true /\ nohj (filter visible tail))).
-    { subst tail. destruct nxt as [off|]; [right|left; auto].
-      specialize (T1 evs off Wc Wr Lr eq_refl).
+                                 /\ judge c rest (filter visible (fst tp)) = true /\ nohj (filter visible (fst tp)))).
+    { subst tp. destruct nxt as [off|]; [right|left; auto].
+      specialize (T1 evs off p1 Hrel Hp Wc Wr Lr eq_refl).
       exists off. split; [reflexivity|]. unfold well_framed. rewrite T1, Lr. split; [reflexivity|].
       cbn [at_end]. unfold truncated. rewrite Lr. cbn [negb andb].
-      rewrite (framed_wire _ _ T1), Z.eqb_refl. exact (IH _ Wrest Lrest). }
-    clearbody tail.
-    inversion Sh as [s M E1 E2 | E1 E2 | Ex E1 E2 | s Ex M E1 E2 | pre n x s cl hj nxt' Hp Hr Hh E1 E2]; subst.
+      rewrite (framed_wire _ _ T1), Z.eqb_refl. exact (IH _ _ Hp1 Wrest Lrest). }
+    clearbody tp. destruct tp as [tail p2]. cbn [fst snd] in *.
+    cbn [filter visible]. rewrite filter_app.
+    inversion Sh as [s M E1 E2 | E1 E2 | Ex E1 E2 | s Ex M E1 E2 | pre n x s cl hj nxt' Hp' Hr Hh E1 E2]; subst.
     + destruct Htail as [[_ ->] | (off & Hn & _)]; [|discriminate]. cbn. rewrite M. auto.
     + destruct Htail as [[_ ->] | (off & Hn & _)]; [|discriminate]. cbn. auto.
     + destruct Htail as [[_ ->] | (off & Hn & _)]; [|discriminate]. cbn. rewrite Ex. auto.
     + destruct Htail as [[_ ->] | (off & Hn & _)]; [|discriminate]. cbn. rewrite Ex, M. auto.
     + assert (V : filter visible (pre ++ [EDispatch (r_id r) n x; EResp s cl] ++ hj)
                   = pre ++ [EDispatch (r_id r) n x; EResp s cl] ++ hj).
-      { destruct Hp as [-> | [-> _]]; destruct Hh as [[-> _] | ->]; reflexivity. }
+      { destruct Hp' as [-> | [-> _]]; destruct Hh as [[-> _] | ->]; reflexivity. }
       rewrite V. split.
       * rewrite judge_run; auto.
         -- destruct Hh as [[-> ->] | ->]; [reflexivity|]. cbn.
@@ -625,23 +724,79 @@ Proof.
         -- destruct Hh as [[-> ->] | ->]; [left|right].
            ++ destruct Htail as [[_ ->] | (off & Hn & _)]; [auto|discriminate].
            ++ split; [reflexivity|]. destruct Htail as [[_ ->] | (off & _ & _ & _ & N)]; [exact I|exact N].
-      * destruct Hp as [-> | [-> _]]; exact I.
+      * destruct Hp' as [-> | [-> _]]; exact I.
+Qed.
+
+(* several connections one after the other over the same pool *)
+Theorem conns_judged rel c : rel_resets rel -> wf_cfg c -> forall conns p,
+  pool_ok p -> Forall (Forall wf_req) conns -> Forall (Forall (fun r => r_lim r = None)) conns ->
+  Forall2 (fun rs tr => judge c rs (filter visible tr) = true /\
+                        forall e, In e tr -> match e with EParse off => In off (boundaries 0 rs) | EDesync _ _ _ => False | _ => True end)
+          conns (serve_conns rel c conns p).
+Proof.
+  intros Hrel Wc conns; induction conns as [|rs more IH]; intros p Hp W L; cbn [serve_conns]; [constructor|].
+  inversion W as [|? ? W1 W2]; inversion L as [|? ? L1 L2]; subst.
+  pose proof (body_bytes_never_parsed rel c Hrel Wc rs 0 p Hp W1 L1) as [Hp1 He].
+  pose proof (model_trace_judged rel c Hrel Wc rs 0 p Hp W1 L1) as [J _].
+  destruct (serve_p rel c rs 0 p) as [tr p1]. cbn [fst snd] in *.
+  constructor; [split; assumption|]. exact (IH p1 Hp1 W2 L2).
 Qed.
 
 (* ------------------------------------------------------------------------------------ *)
-(* non-vacuity: the three behaviours that used to desynchronise the connection          *)
+(* non-vacuity                                                                          *)
 (* ------------------------------------------------------------------------------------ *)
 
 Definition wit_cfg : cfg := mkCfg true 20000 false true false false false.
-Definition wit_detach : req := mkReq 1 58 false false false (FFixed 10000) None None 0 false RNone FinDetach.
-Definition wit_timeout : req := mkReq 1 58 false false false (FFixed 10000) None None 0 false RNone FinTimeout.
+Definition wit_detach : req := mkReq 1 58 false false false (FFixed 10000) None None 0 false RNone FinDetach O None.
+Definition wit_timeout : req := mkReq 1 58 false false false (FFixed 10000) None None 0 false RNone FinTimeout O None.
 Definition wit_sticky : req :=
-  mkReq 1 58 false false false (FChunked [mkChunk 3 5 false; mkChunk 4 64 true] 3 2) None None 0 false REOF FinNone.
-Definition wit_detach_read : req := mkReq 1 58 false false false (FFixed 10000) None None 0 false REOF FinDetach.
+  mkReq 1 58 false false false (FChunked [mkChunk 3 5 false; mkChunk 4 64 true] 3 2) None None 0 false REOF FinNone O None.
+Definition wit_detach_read : req := mkReq 1 58 false false false (FFixed 10000) None None 0 false REOF FinDetach O None.
+
+Definition nxt_of (x : list event * option Z * rspool) : option Z := snd (fst x).
 
 (* detaching an unread stream, timing out, reading into a broken chunk: the connection is closed;
    detaching after reading everything: the connection goes on at the end of the body *)
 Lemma former_findings_close :
-  snd (serve_one wit_cfg wit_detach) = None /\ snd (serve_one wit_cfg wit_timeout) = None /\
-  snd (serve_one wit_cfg wit_sticky) = None /\ snd (serve_one wit_cfg wit_detach_read) = Some 10000.
+  nxt_of (serve_one releaseRequestStream wit_cfg wit_detach []) = None /\
+  nxt_of (serve_one releaseRequestStream wit_cfg wit_timeout []) = None /\
+  nxt_of (serve_one releaseRequestStream wit_cfg wit_sticky []) = None /\
+  nxt_of (serve_one releaseRequestStream wit_cfg wit_detach_read []) = Some 10000.
 Proof. vm_compute. auto. Qed.
+
+(* ---- the statements depend on releaseRequestStream resetting the object ---- *)
+
+(* a release that forgets rs.chunkLeft (every other field is reset) *)
+Definition release_forgets_chunkLeft (o : rsobj) : rsobj := mkRs 0 (o_left o) false None.
+Definition release_forgets_total (o : rsobj) : rsobj := mkRs (o_t o) 0 false None.
+Definition release_forgets_eof (o : rsobj) : rsobj := mkRs 0 0 (o_eof o) None.
+
+(* connection 1: the peer goes away 60 bytes into a 200-byte chunk; connection 2: one well-formed
+   400-byte chunk whose data carries CRLF + last-chunk + a request at raw offset 140, then a sentinel *)
+Definition pool_cfg : cfg := mkCfg true 10000 false true false false false.
+Definition pool_att : req := mkReq 1 58 false false false (FChunked [mkChunk 4 200 true] 3 2) None (Some 64) 0 false REOF FinNone O None.
+Definition pool_vic : req := mkReq 1 58 false false false (FChunked [mkChunk 5 400 true] 3 2) None None 0 false RNone FinNone O (Some (140, 7)).
+Definition pool_next : req := mkReq 2 29 true false false FNone None None 0 false RNone FinNone O None.
+
+Lemma pool_reset_matters :
+  (* with the real release the second connection is served cleanly ... *)
+  serve_conns releaseRequestStream pool_cfg [[pool_att]; [pool_vic; pool_next]] []
+  = [[EParse 0; EDispatch 1 60 RcErr; EResp 200 true; EClose];
+     [EParse 0; EDispatch 1 0 RcOk; EResp 200 false; EParse 470; EDispatch 2 0 RcOk; EResp 200 false; EClose]]
+  (* ... without the chunkLeft reset the second body "ends" 147 bytes in and the server goes on parsing
+     inside it (offset 205 of the connection, strictly inside the request) *)
+  /\ serve_conns release_forgets_chunkLeft pool_cfg [[pool_att]; [pool_vic; pool_next]] []
+  = [[EParse 0; EDispatch 1 60 RcErr; EResp 200 true; EClose];
+     [EParse 0; EDispatch 1 0 RcOk; EResp 200 false; EDesync 1 147 205]]
+  /\ inside_some_message 0 [pool_vic; pool_next] 205 = true.
+Proof. vm_compute. auto. Qed.
+
+(* the same for totalBytesRead (a fixed-length body is then left half unread) and eof (a chunked body
+   is then not read at all) *)
+Definition fix_a : req := mkReq 1 58 false false false (FFixed 9000) None None 0 false REOF FinNone O None.
+Definition fix_b : req := mkReq 1 58 false false false (FFixed 10000) None None 0 false RNone FinNone O None.
+Definition chk_a : req := mkReq 1 58 false false false (FChunked [mkChunk 4 64 true] 3 2) None None 0 false REOF FinNone O None.
+Lemma pool_reset_matters_other_fields :
+  (exists id rel off, In (EDesync id rel off) (concat (serve_conns release_forgets_total pool_cfg [[fix_a; pool_next]; [fix_b; pool_next]] []))) /\
+  (exists id rel off, In (EDesync id rel off) (concat (serve_conns release_forgets_eof pool_cfg [[chk_a; pool_next]; [chk_a; pool_next]] []))).
+Proof. split; vm_compute; do 3 eexists; eauto 20. Qed.
